@@ -68,7 +68,7 @@ class HandlerModel:
             out.append((label, kinds, spec))
         return out
 
-    def run(self, code, shape, flags=None, handler=None, cmp_oracle=None, **opts):
+    def run(self, code, shape, flags=None, handler=None, cmp_oracle=None, assume=None, **opts):
         d = self.D.codes[code]
         h = self.F.bodies[handler or d["handler"]]
         label, kinds, spec = shape
@@ -78,6 +78,9 @@ class HandlerModel:
         path = A.Path()
         if flags is not None:
             path.assume = flag_assume(flags)
+        if assume:
+            path.assume = dict(path.assume or {})
+            path.assume.update(assume)
         outs = list(I.run(h, [P.self_ref(), P.INSTR], path))
         return outs, I
 
